@@ -227,7 +227,10 @@ def gen_cases(run):
         k = r.randint(1, 6)
         pool = [0.0, -1.0, 1e-4, 0.008, 0.025, 0.05, 0.1, 0.5, 1.0, 2.0, 4.5]      # tiny positive temperatures are soft routing too
         cands = [r.choice(pool) for _ in range(k)]           # repeats and several hard candidates allowed
-        vals = [round(r.uniform(0, 3), 2) for _ in range(3)]
+        # scores in other units (losses of tiny or huge targets): the tuner compares scores, it does not measure improvements
+        # against an absolute resolution
+        unit = r.choice([1.0, 1.0, 1.0, 1e-8, 1e-6, 1e6])
+        vals = [round(r.uniform(0, 3), 2) * unit for _ in range(3)]
         by_attr = {}
         sc = []
         for c in cands:
